@@ -160,9 +160,11 @@ func newStoreModel(c *Ctx) (*storeModel, string) {
 				}
 			}
 		}
-		// prune: method with batch.Delete in a loop
-		if len(core.CallsTo(fn, batchDelete)) > 0 && fn.Signature.Recv() != nil && core.TypeName(fn.Signature.Recv().Type()) == m.typName {
-			m.prune = fn
+		// prune: the store method that walks the database with an iterator and rewrites the usage counter
+		if fn.Signature.Recv() != nil && core.TypeName(fn.Signature.Recv().Type()) == m.typName && len(core.CallsTo(fn, iterPfx+"Valid")) > 0 {
+			if len(m.sizeOps(fn, "Store")) > 0 || len(core.CallsTo(fn, batchDelete)) > 0 {
+				m.prune = fn
+			}
 		}
 	}
 	// inRadius: the module function called by Put whose bool result gates it and that loads the radius
